@@ -32,6 +32,7 @@ def run(ctx, res):
     res.floor("C04.R2", 6)
     res.floor("C04.R3", 1)
     res.floor("C04.R7", 2)
+    res.floor("C04.R8", 2)
     res.tables["C04.paths"] = len(ev.paths)
 
     # ---- R3: sentinel on key length ------------------------------------------
@@ -169,6 +170,23 @@ def run(ctx, res):
                                   "after the merge function reported failure the call %s" %
                                   ("continues with %s" % [x.a for x in extra] if extra else "returns %s" % APE.vstr(r)),
                                   nxt.loc(mc.node), p.describe(nxt))
+                # R8: with a merge function, success is returned only after the heap ran dry or a head with a different key was seen
+                if r == ("c", OKV):
+                    mv = [v for (a, b), v in p.cons.items() if re.search(r"opt\.merge@\d+$", a) and b == "#0"]
+                    nomerge = bool(mv) and all(v == frozenset((EQ,)) for v in mv)
+                    if mv and not nomerge and any(v == frozenset((EQ,)) for v in mv):
+                        continue    # the merge function does not change during a call: mixed valuations are infeasible
+                    dry = any(re.match(r"^heap_peek\(", a) and b == "#0" and v == frozenset((EQ,)) for (a, b), v in p.cons.items())
+                    lastcmp = None
+                    for e in evs:
+                        if e.kind == "call" and e.a == "bytes_compare":
+                            a_ = [canon(x) for x in call_args(e.node)]
+                            if any("cur_key" in x for x in a_):
+                                lastcmp = p.cons.get((APE.vstr(e.c), "#0"))
+                    res.check(nomerge or dry or (lastcmp is not None and EQ not in lastcmp), "C04.R8", site(nxt, "leave-loop"),
+                              "with a merge function the entry is emitted only after the heap ran dry or the next head has a different key",
+                              "an entry is emitted without looking at the next head although a merge function is set: equal keys still waiting in the "
+                              "(last) source are returned unmerged", nxt.loc(nxt.body), p.describe(nxt))
                 # R2 end state
                 if r == ("c", OKV):
                     res.check(state in ("Fresh", "Filled", None) and consumed >= 1, "C04.R2", site(nxt, "return-success"),
